@@ -195,11 +195,11 @@ pub fn c05() -> i32 {
     // ---- (b) burst outages
     {
         let mut scns = Vec::new();
-        let max_len = if t { 110 } else { 40 };
-        for (tp, spec) in [("1+1", None), ("1+1", Some((0usize, 1usize))), ("1+1", Some((8, 1))), ("2+1", None)] {
+        let max_len = if t { 110 } else { 58 };
+        for (tp, spec) in [("1+1", None), ("1+1", Some((0usize, 1usize))), ("1+1", Some((8, 1))), ("2+1", None), ("2+2", Some((8, 3))), ("2+1", Some((2, 5)))] {
             for w in [0usize, 1, 2, 8] {
                 for d in [0usize, 2] {
-                    if !t && (d == 2 && w != 2 || tp == "2+1" && w < 2) {
+                    if !t && (d == 2 && w != 2 || tp == "2+1" && w < 2 || tp == "2+2" && w != 8) {
                         continue;
                     }
                     let base = {
@@ -240,7 +240,9 @@ pub fn c05() -> i32 {
                                 }
                                 scns.push(s);
                             }
-                            len += if t || len < 24 { 1 } else { 4 };
+                            // spectators of hosts with several players: every length up to the
+                            // 60-frame ring (a burst of frames x players events in one poll)
+                            len += if t || len < 24 || (spec.is_some() && base.num_players >= 3 && len < 59) { 1 } else { 4 };
                         }
                     }
                 }
